@@ -52,19 +52,24 @@ def case_strategy():
                                   'relay': st.sampled_from(['', '/came/from?x=1&y=2']),
                                   # the SP's documented clock-skew allowance, and how the IdP gets the subject identifier: handed over ready-made, or built by its
                                   # identifier store from a NameIDPolicy (long-lived IdP, few users, several formats)
-                                  'slack': st.sampled_from([None, None, 0, 180]), 'acs_index': st.sampled_from([False, False, True]), 'tz': st.sampled_from([None, None, None, 'PST8', 'JST-9']),
+                                  'slack': st.sampled_from([None, None, 0, 180]), 'acs_index': st.sampled_from([False, False, True]), 'tz': st.sampled_from([None, None, None, 'PST8', 'JST-9']), 'policy': st.sampled_from([False, False, True]),
                                   'nid_policy': st.one_of(st.none(), st.none(), st.tuples(st.sampled_from(['user-a', 'user-b']), st.integers(0, 2)).map(list))})
 
 
-def pair(opts, slack=None, acs_index=False):
-    key = (opts, slack, acs_index)
+POLICY = {'default': {'lifetime': {'minutes': 5}, 'nameid_format': 'urn:oasis:names:tc:SAML:2.0:nameid-format:persistent'},
+          spside.SP: {'attribute_restrictions': None}}     # the SP's own section says nothing about lifetime: the operator's default applies
+
+
+def pair(opts, slack=None, acs_index=False, policy=False):
+    key = (opts, slack, acs_index, policy)
     if key not in _pairs:
         wrs, was, wors = bool(opts & 1), bool(opts & 2), bool(opts & 4)
         extra = {} if slack is None else {'accepted_time_diff': slack}
         sp, idp, spmd, idpmd = world.pair({'want_response_signed': wrs, 'want_assertions_signed': was, 'want_assertions_or_response_signed': wors, **extra,
                                            # endpoints in the documented (url, binding) or (url, binding, index) form
                                            'acs': [(spside.ACS_POST, world.POST, 0), (spside.ACS_REDIRECT, world.REDIRECT, 1), ('https://sp.verif.example/acs/soap', world.SOAP, 2)] if acs_index else
-                                                  [(spside.ACS_POST, world.POST), (spside.ACS_REDIRECT, world.REDIRECT), ('https://sp.verif.example/acs/soap', world.SOAP)]}, None)
+                                                  [(spside.ACS_POST, world.POST), (spside.ACS_REDIRECT, world.REDIRECT), ('https://sp.verif.example/acs/soap', world.SOAP)]},
+                                          {'policy': POLICY} if policy else None)
         clock.install()
         _pairs[key] = (sp, idp)
     return _pairs[key]
@@ -136,7 +141,7 @@ def _run(case):
     if wors and not (sr or sa):
         sr = True
     binding = case['binding']
-    sp, idp = pair(case['opts'], case.get('slack'), bool(case.get('acs_index')))
+    sp, idp = pair(case['opts'], case.get('slack'), bool(case.get('acs_index')), bool(case.get('policy')))
     clock.set_now(NOW)
     identity = dict((k, list(v)) for k, v in case['identity'].items())
     n = case['name_id']
@@ -201,6 +206,8 @@ def _run(case):
     ai = got.authn_info()
     if not ai or ai[0][0] != case['class_ref']:
         raise Violation('authn-context-differs', 'asserted %r read %r' % (case['class_ref'], ai))
+    if case['session'] is None and case.get('policy') and si['not_on_or_after'] != NOW + 300:
+        raise Violation('session-expiry-differs', 'the release policy gives assertions a lifetime of 5 minutes, the SP reads an expiry of now%+d s' % (si['not_on_or_after'] - NOW))
     if case['session'] is not None and si['not_on_or_after'] != NOW + case['session']:
         raise Violation('session-expiry-differs', 'SessionNotOnOrAfter %d read as %r' % (NOW + case['session'], si['not_on_or_after']))
     # ---- values never change the structure
